@@ -171,6 +171,7 @@ func runC04(c *Ctx) {
 	c04Tables(c, p)
 	c04Layout(c)
 	c04Munch(c)
+	c04DecodeWrites(c, c.P)
 }
 
 func c04Tables(c *Ctx, p *core.Prog) {
